@@ -482,10 +482,10 @@ func checkParsed(m *msgs, s string, p *parsed) {
 		if !inI64(want) && p.okI[2] {
 			m.add("ParseInt(%q, 64) accepts an out-of-range number as %d", s, p.i64)
 		}
-		if inU64(want) && (!p.okU[2] || p.u64 != want.Uint64()) {
+		if inU64(want) && !neg && (!p.okU[2] || p.u64 != want.Uint64()) {
 			m.add("ParseUint(%q, 64) = %d ok=%v, expected %v", s, p.u64, p.okU[2], want)
 		}
-		if !inU64(want) && p.okU[2] {
+		if (!inU64(want) || neg) && p.okU[2] {
 			m.add("ParseUint(%q, 64) accepts an out-of-range number as %d", s, p.u64)
 		}
 	}
